@@ -253,7 +253,7 @@ class NonTermination(RuntimeError):
     """A public call used more than CALL_CPU_LIMIT_S seconds of CPU time (a query needs microseconds to milliseconds)."""
 
 
-CALL_CPU_LIMIT_S = 120.0
+CALL_CPU_LIMIT_S = 20.0
 
 
 class cpu_watchdog:
